@@ -22,32 +22,7 @@ use succinctly::json::light::JsonIndex;
 use succinctly::json::locate::locate_offset_detailed;
 
 pub fn tables() -> Vec<(&'static str, String)> {
-    // Rust `char::is_alphabetic` / `char::is_numeric` as flattened [lo, hi, lo, hi, …] scalar ranges.
-    fn ranges(f: impl Fn(char) -> bool) -> String {
-        let mut out: Vec<u32> = Vec::new();
-        let mut start: Option<u32> = None;
-        for cp in 0..=0x10FFFFu32 {
-            let yes = char::from_u32(cp).map(&f).unwrap_or(false);
-            match (yes, start) {
-                (true, None) => start = Some(cp),
-                (false, Some(s)) => {
-                    out.push(s);
-                    out.push(cp - 1);
-                    start = None;
-                }
-                _ => {}
-            }
-        }
-        if let Some(s) = start {
-            out.push(s);
-            out.push(0x10FFFF);
-        }
-        crate::json_list(out.iter())
-    }
-    vec![
-        ("UNICODE_ALPHABETIC_RANGES", ranges(|c| c.is_alphabetic())),
-        ("UNICODE_NUMERIC_RANGES", ranges(|c| c.is_numeric())),
-    ]
+    vec![]
 }
 
 // ---------------------------------------------------------------------------------------------
